@@ -44,7 +44,7 @@ META = {
         "CFG path after its last definition (a string assembled in the return statement, a one-shot suffix, a bounded retry or a "
         "counter fast path violate it); (a) the candidate rebuilt in the loop is <base><separator><counter> with a base that has "
         "no definition inside the loop; (b) (separator, first suffix, step) equal the plugin's; (c) the registry handed to the "
-        "uniquifier is the one that receives `[slug] = record`; (e) that registry is assigned an empty dict on every path of a "
+        "uniquifier is the one that receives `[slug] = record`, not under a truthiness test of the slug ('' is a legal slug); (e) that registry is assigned an empty dict on every path of a "
         "method that render() always runs (not only in __init__); (f) no code reached from the token handlers or nested renders "
         "(nested functions included) empties the registry attribute or puts back an earlier snapshot of it. "
         "R2 slug function, title and CLI: (a) myst-anchors gives the renderer's own default slug function to anchors_plugin "
@@ -72,7 +72,8 @@ META = {
         "feeds the slug function is marked global_only and merge_file_level reaches setattr/validate_field only behind a negative "
         "global_only test (a document cannot choose the function that computes its own anchors); a configuration object that is "
         "stored on the Sphinx environment drops the slug function from its pickled state (__getstate__), so that a function "
-        "defined in conf.py can be configured at all. "
+        "defined in conf.py can be configured at all, and __getstate__ modifies only a copy of the instance dict, never the "
+        "instance (Sphinx keeps using the environment after pickling it). "
         "R5 the record stored per slug is classified by its expressions (LINE, ID, TITLE); its id is read from the registered "
         "`ids` of the node, not recomputed with make_id / a name normaliser (docutils de-duplicates registered ids); every reader of every publication "
         "channel of the registry (document attribute, env.metadata key, per-document map in an attribute) takes fields out by "
@@ -684,6 +685,28 @@ def _r1_registry(corpus: Corpus, rep: Report, cus: FunctionInfo) -> None:
         same = [n for n in stores if _resolve_alias(n.targets[0].value, fi) == reg_text]
         if same:
             rep.ok("C10.R1", k, csite, f"`{unparse(reg)}` is tested and receives `[{res}] = ...`")
+            # '' is a legal slug (emoji-only / punctuation-only title): it is recorded like any other
+            ke_ = f"{fi.fq}|an empty slug is recorded like any other"
+            cfg_ = get_cfg(fi)
+            falsy = None
+            for n in same:
+                for t, pol in cfg_.guards(cfg_.stmt_of(n)):
+                    if pol and isinstance(t, ast.Name) and t.id == res:
+                        falsy = (n, t)
+                    if isinstance(t, ast.Compare) and len(t.ops) == 1 and res in _names(t) and any(isinstance(x, ast.Constant) and x.value in ("", 0) for x in ast.walk(t)):
+                        falsy = (n, t)
+                    if isinstance(t, ast.Call) and dotted(t.func) in ("len", "bool") and res in _names(t) and pol:
+                        falsy = (n, t)
+            if falsy is not None:
+                rep.violation(
+                    "C10.R1",
+                    ke_,
+                    fi.module.site(falsy[1]),
+                    f"the slug is only recorded when `{short(falsy[1], 40)}` holds: a successfully computed empty slug (title of emoji or punctuation only) gets no anchor and "
+                    "is not entered in the registry, although myst-anchors prints it (and numbers the next such heading `-1`)",
+                )
+            else:
+                rep.ok("C10.R1", ke_, fi.module.site(same[0]))
         elif stores:
             rep.violation(
                 "C10.R1",
@@ -2292,6 +2315,75 @@ def _r4_global_only(corpus: Corpus, rep: Report) -> None:
         rep.ok("C10.R4", k, m.site(applies[0]), f"{len(applies)} store/validate call(s) behind `not field.metadata.get('global_only')`")
 
 
+def _instance_dict_kind(gs: FunctionInfo, e: ast.expr, depth: int = 0) -> str:
+    """'live' (the instance's own attribute dict), 'copy' (a new dict made from it) or 'other'."""
+    selfn = gs.params[0] if gs.params else "self"
+
+    def is_live(x: ast.expr) -> bool:
+        return (isinstance(x, ast.Attribute) and x.attr == "__dict__" and isinstance(x.value, ast.Name) and x.value.id == selfn) or (
+            isinstance(x, ast.Call) and dotted(x.func) == "vars" and len(x.args) == 1 and isinstance(x.args[0], ast.Name) and x.args[0].id == selfn
+        )
+
+    if is_live(e):
+        return "live"
+    if isinstance(e, ast.Call):
+        d = dotted(e.func) or ""
+        if isinstance(e.func, ast.Attribute) and e.func.attr == "copy" and not e.args:
+            return "copy"
+        if d in ("dict", "copy.copy", "copy.deepcopy", "OrderedDict") or d.endswith(("asdict", "deepcopy")):
+            return "copy"
+    if isinstance(e, (ast.Dict, ast.DictComp)):
+        return "copy"
+    if isinstance(e, ast.Name) and depth < 4:
+        ds = _assigns_to(gs, e.id)
+        kinds_ = {_instance_dict_kind(gs, d.value, depth + 1) for d in ds if getattr(d, "value", None) is not None}
+        if len(kinds_) == 1:
+            return kinds_.pop()
+        if "live" in kinds_:
+            return "live"
+    return "other"
+
+
+def _r4_getstate_pure(rep: Report, ci, gs: FunctionInfo, fld: str) -> None:
+    """Sphinx pickles the environment in the middle of a build (after reading, in every parallel worker) and goes on using it:
+    producing the pickled state must not change the configuration object itself."""
+    k = f"{ci.fq}|pickling does not change the configuration in use"
+    selfn = gs.params[0] if gs.params else "self"
+    live = None
+    undecided = None
+    for n in walk_local(gs.node):
+        target = None
+        if isinstance(n, ast.Subscript) and isinstance(n.ctx, (ast.Store, ast.Del)):
+            target = n.value
+        elif isinstance(n, ast.Call) and isinstance(n.func, ast.Attribute) and n.func.attr in ("pop", "update", "clear", "setdefault", "popitem", "__setitem__"):
+            target = n.func.value
+        elif isinstance(n, ast.Attribute) and isinstance(n.ctx, (ast.Store, ast.Del)) and isinstance(n.value, ast.Name) and n.value.id == selfn:
+            live = live or n
+            continue
+        elif isinstance(n, ast.Call) and dotted(n.func) in ("setattr", "delattr", "object.__setattr__") and n.args and isinstance(n.args[0], ast.Name) and n.args[0].id == selfn:
+            live = live or n
+            continue
+        if target is None:
+            continue
+        kind = _instance_dict_kind(gs, target)
+        if kind == "live":
+            live = live or n
+        elif kind == "other":
+            undecided = undecided or n
+    if live is not None:
+        rep.violation(
+            "C10.R4",
+            k,
+            gs.module.site(live),
+            f"{gs.qualname} modifies the instance itself (`{short(live, 50)}` acts on the object's own attribute dict, not on a copy): the first pickling of the Sphinx environment "
+            f"(after the reading phase / in a parallel worker) silently removes an unpicklable `{fld}` from the configuration that is still in use, so later documents fall back to the default slug function",
+        )
+    elif undecided is not None:
+        raise Unsupported(f"{gs.module.site(undecided)}: object modified in {gs.qualname} is neither the instance dict nor a visible copy of it: {short(undecided, 50)}")
+    else:
+        rep.ok("C10.R4", k, gs.site(), "only a copy of the instance dict is modified")
+
+
 def _r4_picklable_config(corpus: Corpus, rep: Report) -> None:
     """Sphinx pickles the environment after reading; a config stored on it must not carry a callable that cannot be
     pickled by reference (a function defined in conf.py), or no custom slug function from conf.py can ever be used."""
@@ -2322,6 +2414,7 @@ def _r4_picklable_config(corpus: Corpus, rep: Report) -> None:
     f0, n0 = stored[0]
     if handled:
         rep.ok("C10.R4", k, gs.site(), f"{gs.qualname} replaces/removes `{fld}` in the pickled state")
+        _r4_getstate_pure(rep, ci, gs, fld)
     else:
         rep.violation(
             "C10.R4",
@@ -3110,6 +3203,15 @@ def mutants(corpus: Corpus):
                 s2 = splice(s2, last, segment(src, last) + "\n" + " " * last.col_offset + seg)
                 out.append(Mutant("c10-registry-init-only", "C10.R1", base.rel, s2, expect="re-created for every render"))
     for fi, call in _cus_call_sites(corpus):
+        st0 = parent(call)
+        if fi.module is base and isinstance(st0, ast.Assign) and isinstance(st0.targets[0], ast.Name):
+            res0 = st0.targets[0].id
+            stores0 = [n for n in walk_local(fi.node) if isinstance(n, ast.Assign) and len(n.targets) == 1 and isinstance(n.targets[0], ast.Subscript) and isinstance(n.targets[0].slice, ast.Name) and n.targets[0].slice.id == res0]
+            if stores0:
+                n0 = stores0[0]
+                ind0 = " " * n0.col_offset
+                out.append(Mutant("c10-empty-slug-not-recorded", "C10.R1", base.rel, splice(src, n0, f"if {res0}:\n{ind0}    {segment(src, n0)}"), expect="empty slug"))
+    for fi, call in _cus_call_sites(corpus):
         reg = arg_or_kw(call, 1, "slugs")
         if reg is not None and fi.module is base:
             out.append(Mutant("c10-registry-other-collection", "C10.R1", base.rel, splice(src, reg, "self.document.ids"), expect="registry"))
@@ -3175,6 +3277,14 @@ def mutants(corpus: Corpus):
             lines_[nm_off.lineno - 1] = line[:col] + "_unused_getstate" + line[col + len("__getstate__"):] + ("\n" if lines_[nm_off.lineno - 1].endswith("\n") else "")
             out.append(Mutant("c10-revert-c6e9713-getstate-dropped", "C10.R4", cmn0.rel, "".join(lines_), expect="pickled state"))
             stn = find_node(gs_, lambda n: isinstance(n, ast.Assign) and isinstance(n.targets[0], ast.Subscript) and isinstance(n.targets[0].slice, ast.Constant) and n.targets[0].slice.value == fld_)
+            # class "producing the pickled state changes the live configuration"
+            if stn is not None and isinstance(stn.targets[0].value, ast.Name):
+                sname = stn.targets[0].value.id
+                sdefs = [d for d in _assigns_to(gs_, sname) if isinstance(d, ast.Assign)]
+                if len(sdefs) == 1 and _instance_dict_kind(gs_, sdefs[0].value) == "copy":
+                    out.append(Mutant("c10-getstate-mutates-live-dict", "C10.R4", cmn0.rel, splice(cmn0.src, sdefs[0].value, f"vars({gs_.params[0]})"), expect="configuration in use"))
+                ind_ = " " * stn.col_offset
+                out.append(Mutant("c10-getstate-resets-live-attribute", "C10.R4", cmn0.rel, splice(cmn0.src, stn, segment(cmn0.src, stn) + f"\n{ind_}{gs_.params[0]}.{fld_} = None"), expect="configuration in use"))
             if stn is not None:
                 out.append(Mutant("c10-getstate-keeps-slug-func", "C10.R4", cmn0.rel, splice(cmn0.src, stn, "pass"), expect="pickled state"))
     except Unsupported:
